@@ -14,7 +14,24 @@ Oracles (all written from the statement):
              the simple player vars exactly (=> one correct event per change).
   views      whenever a game mode is live, its devices are bound to the current player's storage and show the
              shadow's value/enabled/completed/state/ticks.
-Relaxations (statement leaves open) are marked R-... in the code.
+Every dispatch is classified from the SUT's own mode flags: LIVE (mode active, not starting/stopping: the
+documented effect MUST apply to the player who is up), DEAD (mode not loaded: NO player's state may change),
+TRANSIENT (mode starting/stopping).
+
+Relaxations (what the statement leaves open; marked R-... in the code):
+  R-transient                 an event dispatched while the owning mode is starting/stopping may or may not count,
+                              but only for the player whose ball it is (every subset of its effects is accepted).
+  R-timeout-earlier-ball      a logic_block_timeout armed by the same player in an earlier ball may still fire.
+  R-timeout-rearm-at-restore  a restored, still running block may restart its timeout at ball start.
+  R-m2-window                 restart_on_next_ball is only asserted when m2 was not started/stopped by hand and was
+                              not mid-transition around the ball change.
+  R-timer-restart             timers have no persistence option: the (mode)_(timer)_tick variable restarts from
+                              start_value whenever the player's mode loads; what is checked is that it belongs to
+                              the player (nobody else's turn touches it) and that events replay to its value.
+  R-intended-cross-write      `player: 1` in a variable_player entry (variable gift) is an intended write.
+Not relaxed: a player variable or persisted device state of a player who is not up never changes; a delayed
+control event or timeout scheduled in one player's ball never lands in another player's state; MPF survives any
+event between turns / games.
 """
 import copy
 
@@ -23,8 +40,8 @@ from models import c11_model as M
 
 ID = "C11"
 LEVEL = "exploration"
-RUNS = {"quick": 1600, "thorough": 60000}
-WALL_CAP = {"quick": 120, "thorough": 3000}
+RUNS = {"quick": 1200, "thorough": 30000}
+WALL_CAP = {"quick": 120, "thorough": 1800}
 RULE = ("one case = one generated multi-player game history (1-4 players, 1-3 balls, 30-120 operations: progress "
         "events for counters/accrual/sequence/shots/shot group/achievements/timer/variable_player, switch hits, "
         "drains, extra balls, add-player, early end_game, new games; some events posted from inside game "
@@ -47,6 +64,9 @@ ASSUMPTIONS = ["a ball ends when a `ball_drain` event reports the ball (no ball 
                "write: it is modelled as such and exempt from the snapshot oracle",
                "debounce windows (multiple_hit_window, delay_switch) are not configured: they are wall-clock features",
                "timer tick instants are not checked here (C13 does); only which player's variable they change"]
+TECHNIQUE = ("deterministic simulation of the real game/mode/device code on a virtual-time loop; per-player shadow model "
+             "driven by what was dispatched; faults: loop stalls, tie permutations, slow life-cycle transitions (queue "
+             "holds), events injected inside life-cycle events and on pending timer deadlines")
 STATE_ABSTRACTION = "(phase of the game life cycle, #players, current player, class of last dispatch, progress bucket)"
 
 LIVE, TRANSIENT, DEAD = "live", "transient", "dead"
